@@ -559,7 +559,10 @@ def case(draw, with_links=True, max_res=8, mixed_nrexcl=False, routes=("json", "
                 a = first[u] + draw(st.integers(0, nu - 1))
                 b = first[v] + draw(st.integers(0, nv - 1))
                 pair = [a, b] if draw(st.booleans()) else [b, a]
-                explicit.append({"sec": "bonds", "atoms": pair, "params": ["1", _param(draw), _param(draw)]})
+                if draw(st.integers(0, 2)) == 0:
+                    explicit.append({"sec": "constraints", "atoms": pair, "params": ["1", _param(draw)]})
+                else:
+                    explicit.append({"sec": "bonds", "atoms": pair, "params": ["1", _param(draw), _param(draw)]})
     return {"rng": draw(st.integers(0, 2**31 - 1)), "name": "mol", "blocks": blocks, "links": links,
             "mods": [], "files": files, "graph": graph, "route": route, "mods_cli": [], "explicit": explicit,
             "explicit_one_link": one_link}
@@ -716,8 +719,11 @@ def write_inputs(spec, directory):
     if spec.get("explicit"):
         lines = []
         if spec.get("explicit_one_link"):
-            lines += ["[ link ]", "[ molmeta ]", "by_atom_id true", f"[ {spec['explicit'][0]['sec']} ]"]
-            lines += [" ".join([str(a) for a in it["atoms"]] + it["params"]) for it in spec["explicit"]] + [""]
+            lines += ["[ link ]", "[ molmeta ]", "by_atom_id true"]
+            for sec in sorted({it["sec"] for it in spec["explicit"]}):
+                lines.append(f"[ {sec} ]")
+                lines += [" ".join([str(a) for a in it["atoms"]] + it["params"]) for it in spec["explicit"] if it["sec"] == sec]
+            lines.append("")
         for it in ([] if spec.get("explicit_one_link") else spec["explicit"]):
             lines += ["[ link ]", "[ molmeta ]", "by_atom_id true", f"[ {it['sec']} ]",
                       " ".join([str(a) for a in it["atoms"]] + it["params"]), ""]
